@@ -343,3 +343,32 @@ func Sibling(id Identity) (Identity, error) {
 	}
 	return Identity{Key: k, Cert: c}, nil
 }
+
+// WithValidity returns an identity on the same key with the same names and serial whose certificate is expired
+// (kind 1: valid from three years ago to one year ago) or not yet valid (kind 2: valid from next year on). Whether a
+// relying party accepts such a certificate is its policy; what a key has signed, and when, does not depend on it.
+func WithValidity(id Identity, kind int) (Identity, error) {
+	if id.Key < 0 {
+		return id, fmt.Errorf("no private key")
+	}
+	now := time.Now().UTC().Truncate(time.Hour)
+	nb, na := now.Add(-3*365*24*time.Hour), now.Add(-365*24*time.Hour)
+	if kind == 2 {
+		nb, na = now.Add(365*24*time.Hour), now.Add(3*365*24*time.Hour)
+	}
+	tpl := &x509.Certificate{
+		SerialNumber:       id.Cert.SerialNumber,
+		Subject:            id.Cert.Subject,
+		RawSubject:         id.Cert.RawSubject,
+		NotBefore:          nb,
+		NotAfter:           na,
+		KeyUsage:           x509.KeyUsageDigitalSignature,
+		SignatureAlgorithm: x509.SHA256WithRSA,
+	}
+	k := Keys()[id.Key]
+	c, err := finishCert(tpl, &k.PublicKey, k, &issuer{Key: id.Key, Name: id.Cert.Issuer, RawSubject: id.Cert.RawIssuer})
+	if err != nil {
+		return id, err
+	}
+	return Identity{Key: id.Key, Cert: c}, nil
+}
